@@ -11,7 +11,8 @@ from ..engine import site_str
 from ..ir import AnalysisBroken, walk, strip
 from .common import insts, paths_of
 from .C12 import _expr_txt, _FN
-from . import C02
+from . import C02, C04
+from ..ir import sym_paths
 
 TEXT = {
     "C14.flow": "in every `...With` member of FullControlT / RP_ / PayloadPlanT and in PayloadPlanT::append the `payload` parameter is the payload argument of "
@@ -20,9 +21,11 @@ TEXT = {
                 "payload-less constructors leave payloadSet false; payload() returns reinterpret_cast<const Payload*>(&storage) iff payloadSet",
     "C14.plan": "FullControlT<payload>::updatePlan passes *it->payload() to changeWith when the task carries one, changeTo otherwise",
     "C14.layout": "alignof(TransitionT<P>) >= alignof(P), offsetof(storage) % alignof(P) == 0, sizeof(storage) == sizeof(P); same for TaskT<P>",
+    "C14.step-record": "within a processing step currentTransitions only grows by `+= pendingTransitions` on the approved arm (never cleared, overwritten or "
+                       "reordered): payloads of earlier approved rounds stay what the states entered later read (same token protocol as C04.round)",
     "C14.name-kind": "the `...With` API constructs the TransitionType its name denotes (same rule instances as C02.name-kind)",
 }
-MIN_INSTANCES = {"C14.flow": 20, "C14.ctor": 4, "C14.plan": 1, "C14.layout": 2, "C14.name-kind": 20}
+MIN_INSTANCES = {"C14.step-record": 2, "C14.flow": 20, "C14.ctor": 4, "C14.plan": 1, "C14.layout": 2, "C14.name-kind": 20}
 BUILTIN = {"int": (4, 4), "unsigned int": (4, 4), "float": (4, 4), "double": (8, 8), "char": (1, 1), "long": (8, 8), "short": (2, 2), "bool": (1, 1)}
 
 
@@ -38,6 +41,18 @@ def check(ctx, F):
     check_layout(ctx, F)
     sub = _NameKind(ctx)
     C02.check_name_kind(sub, F)
+    for fid, b in insts(F, "R_", {"processTransitions", "initialEnter"}):
+        site = "R_::" + b["name"]
+        rex = C04.RE_PROCESS if b["name"] == "processTransitions" else C04.RE_INITIAL
+        bad = None
+        for p in sym_paths(F, fid, 2):
+            ts = C04.tokens(F, p)
+            if "CX:" in ts or not rex.match(ts):
+                bad = ts
+        ctx.instance("C14.step-record", site, {"function": site, "loc": F.floc(fid)})
+        if bad:
+            ctx.violation("C14.step-record", site, "%s (%s)" % (site, F.floc(fid)),
+                          "the step's transition record is not append-only / does not follow the round protocol: `%s`" % bad, {})
     for fid, b in insts(F, "FullControlT", {"updatePlan"}):
         txt = [_expr_txt(x) for x in walk(b["body"]) if x.get("k") == "call" and "f" in x and F.fn(x["f"])["name"] in ("changeWith",)]
         if not txt:
